@@ -436,7 +436,7 @@ def rule_h(model, rep):
                     if isinstance(pat, str):
                         if _unicode_digit_groups(pat, flags):
                             rx_bad.append(f"{cr[1] + '.' if cr else ''}{attr}")
-            from_group = {t.id for a in nodes if isinstance(a, ast.Assign) and (".group(" in ast.unparse(a.value) or ".groupdict(" in ast.unparse(a.value)) for tt in a.targets for t in ast.walk(tt) if isinstance(t, ast.Name)}
+            from_group = {t.id for a in nodes if isinstance(a, ast.Assign) and (".group(" in ast.unparse(a.value) or ".groupdict(" in ast.unparse(a.value) or ".groups(" in ast.unparse(a.value)) for tt in a.targets for t in ast.walk(tt) if isinstance(t, ast.Name)}
             # name -> regex group it holds: x = m.group('g'); a, b = m.group(1, 2); groups = m.groupdict() ... groups['g']
             group_of = {}
             for a in nodes:
@@ -449,6 +449,12 @@ def rule_h(model, rep):
                         for t, g in zip(t0.elts, gs):
                             if isinstance(t, ast.Name):
                                 group_of[t.id] = g
+                elif isinstance(a, ast.Assign) and isinstance(a.value, ast.Call) and isinstance(a.value.func, ast.Attribute) and a.value.func.attr == "groups" and not a.value.args \
+                        and isinstance(a.targets[0], ast.Tuple):
+                    # a, b, c = m.groups(): positional groups 1..n
+                    for i, t in enumerate(a.targets[0].elts, 1):
+                        if isinstance(t, ast.Name):
+                            group_of[t.id] = i
 
             def group_id(e):
                 if isinstance(e, ast.Call) and isinstance(e.func, ast.Attribute) and e.func.attr == "group" and len(e.args) == 1 and isinstance(e.args[0], ast.Constant):
